@@ -212,6 +212,9 @@ func (in *Interp) zero(t types.Type) Value {
 		}
 		return v
 	}
+	if b, ok := t.(*types.Basic); ok && b.Kind() == types.Invalid {
+		return nil // unused component of a range/next tuple
+	}
 	panic(engineErr("zero: unsupported type %v", t))
 }
 
